@@ -112,6 +112,9 @@ impl<F: Read + Seek> BufRead for Stream<F> {
         {
             self.flush_changes()?;
             self.buf_offset_from_start += self.buffer.cursor() as u64;
+            // The old window does not belong to the new offset; drop it now,
+            // so that a failed refill cannot leave it behind.
+            self.buffer.clear();
             let remaining = self.total_len - self.buf_offset_from_start;
             let stream_id = self.stream_id;
             let offset = self.buf_offset_from_start;
